@@ -551,7 +551,7 @@ Proof.
   - unfold view_os. rewrite Hv. apply (chown_admin _ _ Ha Hrd Hvd).
   - apply (chtimes_admin _ _ Ha Hrd Hvd).
   - pose proof (chdir_admin _ _ Ha Hrd Hvd p) as HC. destruct (chdir (w_fs w) v p); cbn [snd clean_sum] in *; [exact HC|apply OK].
-  - cbn [snd]. intros e _ _; split; [discriminate|intros; discriminate].
+  - cbn [snd]. rewrite (getwd_admin _ _ Ha). intros e _ _; split; [discriminate|intros; discriminate].
   - apply (stat_admin _ _ Ha Hrd Hvd).
   - apply (stat_admin _ _ Ha Hrd Hvd).
   - apply (eval_symlinks_admin _ _ Ha Hrd Hvd).
